@@ -45,6 +45,15 @@ CHECKS = {
  "C19": ("TLC trace validation (JPack C19 clause, JRefuse judge) of TLC-enumerated malformed requests: oversize items at every position / multiplicity x format x output type x packer; cbldm calls with exactly one invalid argument",
          "TLC enumerates every sequence with >=1 oversize item (<=5 items) and every cbldm call with one invalid argument; each is executed in list/dict/valueof presentation and all ten output types; TLC requires ValueError (and an answer for the all-valid control); numitems probed on both managers.",
          "Trusted: TLC.", "7 C19"),
+ "C13": ("TLC model checking of the transcribed bounds (Bounds.tla admissible w.r.t. Oracles.BestReach) + TLC trace validation (J13 judge) of direct calls to Objective.lower_bound, InExclusionBinTree.generate_tree and Binner.all_combinations on TLC-enumerated universes",
+         "TLC enumerates every ascending sum vector x remaining total, every item sequence x half-integer window, every pair of bins-arrays; the real extension points are called on each (flag on/off, permuted input, container types, both managers); TLC judges admissibility against BestReach, flag/order independence and exact-once completeness against SubsetsInWindow / DistinctPairings.",
+         "Trusted: TLC, Oracles.tla.", "7 C13"),
+ "C16": ("TLC model checking (BinnerRef: numpy-view / shared-list reference semantics refines BinnerVal under the hand-over discipline; negative control without it) + TLC trace specification JBinner stepping recorded histories of the real bins-managers through BinnerVal's guards and results",
+         "TLC enumerates every operation history to depth 4/5 and simulates deep walks; each is replayed on BinnerKeepingContents and BinnerKeepingSums with the projected state of all live arrays recorded after every operation; the trace spec accepts a history only if every step is the documented effect, disturbs no other live array, alters no argument, and keeps sums consistent.",
+         "Trusted: TLC, BinnerVal.tla as the reading of the documented effects, the projection through sums/numbins/numitems.", "7 C16"),
+ "C20": ("TLC model checking (ObjGen: documented fast path = slow path on sorted vectors) + TLC trace validation (JObj judge: value = ObjectivesDoc.tla, exact rationals for the weighted objective) of value_to_minimize on every TLC-enumerated sum sequence",
+         "TLC enumerates every sequence of <=4/5 sums; the six built-in objectives are evaluated on each as list / tuple / int array / float array, every k in 1..n+2, weight vectors, slow and (on sorted vectors) fast path; TLC compares with the documented definition.",
+         "Trusted: TLC, ObjectivesDoc.tla, float->fraction normalisation of the weighted value.", "7 C20"),
 }
 PENDING = {}
 
